@@ -67,7 +67,7 @@ fn is_int(r: &Result<Variable, ExecStop>, x: i64) -> bool {
 // match: arms  (7), (x2) => 10 ; n: int => 20 ; f: int|float => 30 ; => 40
 fn the_match(scrutinee: Variable, x2: i64) -> Instruction {
     let arms: Vec<MatchArm> = vec![
-        MatchArm::Value(Arc::from(vec![iws(konst(7)), iws(konst(x2))]), iws(konst(10))),
+        MatchArm::Value(Arc::from(crate::vv![iws(konst(7)), iws(konst(x2))]), iws(konst(10))),
         MatchArm::Type { ident: "n".into(), var_type: Type::Int, instruction: iws(konst(20)) },
         MatchArm::Type { ident: "f".into(), var_type: Type::Int | Type::Float, instruction: iws(konst(30)) },
         MatchArm::Other(iws(konst(40))),
@@ -78,7 +78,7 @@ fn the_match(scrutinee: Variable, x2: i64) -> Instruction {
 fn match_selects(kind: u8, fold: bool) {
     // a constant scrutinee lets the folding pass keep only the selected arm
     levels((1 << K_MATCH) | if fold { V } else { 0 }, V, 0, 0);
-    crate::variable::verif_valgate::allow_vals(1 << crate::variable::verif_valgate::V_ARRAY);
+    crate::variable::verif_valgate::allow_vals((1 << crate::variable::verif_valgate::V_ARRAY) | (1 << crate::variable::verif_valgate::V_STRING));
     crate::verif_model::set_order(0);
     let (x, x2): (i64, i64) = (kani::any(), kani::any());
     let f: f64 = kani::any();
@@ -86,7 +86,7 @@ fn match_selects(kind: u8, fold: bool) {
         0 => Variable::Int(x),
         1 => Variable::Float(f),
         2 => Variable::String("a".into()),
-        3 => Variable::from(vec![Variable::Int(x)]),
+        3 => Variable::from(crate::vv![Variable::Int(x)]),
         _ => Variable::Void,
     };
     let mut tree = the_match(scrutinee, x2);
@@ -118,7 +118,7 @@ match_harness!(match_void_folded, 4, true);
 /// arms  a: [int] => 1 ; s: string|float => 2   against scrutinee types from the universe
 fn exhaustive(t: Ty) {
     levels(1 << K_MATCH, V, 0, 0);
-    crate::variable::verif_valgate::allow_vals(1 << crate::variable::verif_valgate::V_ARRAY);
+    crate::variable::verif_valgate::allow_vals((1 << crate::variable::verif_valgate::V_ARRAY) | (1 << crate::variable::verif_valgate::V_STRING));
     crate::verif_model::set_order(0);
     let arms: Vec<MatchArm> = vec![
         MatchArm::Type { ident: "a".into(), var_type: real(T_ARR_INT), instruction: iws(konst(1)) },
@@ -162,14 +162,14 @@ exhaustive_harness!(match_accepted_is_exhaustive_arr_u, T_ARR_U_INT_FLOAT);
 /// if x: T = e   runs the body exactly when the runtime type of e matches T
 fn set_if_else(kind: u8, fold: bool) {
     levels((1 << K_SETIFELSE) | if fold { V } else { 0 }, V, 0, 0);
-    crate::variable::verif_valgate::allow_vals(1 << crate::variable::verif_valgate::V_ARRAY);
+    crate::variable::verif_valgate::allow_vals((1 << crate::variable::verif_valgate::V_ARRAY) | (1 << crate::variable::verif_valgate::V_STRING));
     crate::verif_model::set_order(0);
     let x: i64 = kani::any();
     let e = match kind {
         0 => Variable::Int(x),
         1 => Variable::Float(kani::any()),
-        2 => Variable::from(vec![Variable::Int(x)]),
-        3 => Variable::Array(Arc::new(crate::variable::Array::new_with_type(Type::Int | Type::Float, Arc::from(vec![Variable::Int(x)])))),
+        2 => Variable::from(crate::vv![Variable::Int(x)]),
+        3 => Variable::Array(Arc::new(crate::variable::Array::new_with_type(Type::Int | Type::Float, Arc::from(crate::vv![Variable::Int(x)])))),
         _ => Variable::from(Vec::<Variable>::new()),
     };
     // T = [int]
@@ -215,7 +215,7 @@ fn counted_loop(fold: bool, always_break: bool) {
     let bump: Instruction = BinOperation { lhs: Instruction::Variable(Variable::Mut(cnt.clone())), rhs: konst(1), op: BinOperator::AssignAdd }.into();
     let body: Instruction = if always_break {
         // loop { cnt += 1; break }   -- body has static type `!`
-        Block { instructions: Arc::from(vec![iws(bump), iws(Instruction::Break)]) }.into()
+        Block { instructions: Arc::from(crate::vv![iws(bump), iws(Instruction::Break)]) }.into()
     } else {
         let cond: Instruction = BinOperation { lhs: bump, rhs: konst(n), op: BinOperator::GreaterOrEqual }.into();
         IfElse { condition: iws(cond), if_true: iws(Instruction::Break), if_false: iws(Instruction::Continue) }.into()
@@ -254,7 +254,7 @@ pub fn break_affects_innermost_loop() {
     let bump: Instruction = BinOperation { lhs: Instruction::Variable(Variable::Mut(outer.clone())), rhs: konst(1), op: BinOperator::AssignAdd }.into();
     let cond: Instruction = BinOperation { lhs: bump, rhs: konst(2), op: BinOperator::GreaterOrEqual }.into();
     let exit: Instruction = IfElse { condition: iws(cond), if_true: iws(Instruction::Break), if_false: iws(Instruction::Variable(Variable::Void)) }.into();
-    let body: Instruction = Block { instructions: Arc::from(vec![iws(inner_loop), iws(exit)]) }.into();
+    let body: Instruction = Block { instructions: Arc::from(crate::vv![iws(inner_loop), iws(exit)]) }.into();
     let tree: Instruction = Loop(iws(body)).into();
     let r = run(&tree);
     assert!(matches!(r, Ok(Variable::Void)));
@@ -272,7 +272,7 @@ pub fn break_affects_innermost_loop() {
 pub fn block_value_and_error_propagation() {
     levels(LP | BL | V, BO | V, UO | V, V);
     let (a, b): (i64, i64) = (kani::any(), kani::any());
-    let blk: Instruction = Block { instructions: Arc::from(vec![iws(konst(a)), iws(konst(b))]) }.into();
+    let blk: Instruction = Block { instructions: Arc::from(crate::vv![iws(konst(a)), iws(konst(b))]) }.into();
     assert!(is_int(&run(&blk), b));
     assert!(is_int(&run(&folded(&blk)), b));
     let empty: Instruction = Block { instructions: Arc::from(Vec::<InstructionWithStr>::new()) }.into();
@@ -297,11 +297,11 @@ pub fn return_leaves_innermost_function() {
     let ret: Instruction = UnaryOperation { instruction: konst(x), op: UnaryOperator::Return }.into();
     // body: loop { return x }  ; 99
     let lp: Instruction = Loop(iws(ret)).into();
-    let f = Function { ident: None, params: Params(Arc::from(Vec::new())), body: Body::Lang(Arc::from(vec![iws(lp), iws(konst(99))])), return_type: Type::Int };
+    let f = Function { ident: None, params: Params(Arc::from(Vec::new())), body: Body::Lang(Arc::from(crate::vv![iws(lp), iws(konst(99))])), return_type: Type::Int };
     let mut interp = Interpreter::without_stdlib();
     assert!(matches!(f.exec(&mut interp), Ok(Variable::Int(v)) if v == x));
     // body without return: value is ()
-    let g = Function { ident: None, params: Params(Arc::from(Vec::new())), body: Body::Lang(Arc::from(vec![iws(konst(x))])), return_type: Type::Void };
+    let g = Function { ident: None, params: Params(Arc::from(Vec::new())), body: Body::Lang(Arc::from(crate::vv![iws(konst(x))])), return_type: Type::Void };
     assert!(matches!(g.exec(&mut interp), Ok(Variable::Void)));
     kani::cover!(true);
 }
